@@ -84,7 +84,64 @@ def run(case):
                 problems.append('own cookie not accepted: %r' % data)
         elif data:
             problems.append('%r: non-empty cookie %r presented' % (raw, data))
+    problems += expiry(Application, render_basic, SignedCookieMiddleware, EnvironBuilder, setter, reader)
     return {'fails': bool(problems), 'why': '; '.join(problems[:5])}
+
+
+def expiry(Application, render_basic, SignedCookieMiddleware, EnvironBuilder, setter, reader):
+    """Clock advances around the expiry (the clock is moved, nothing sleeps): a cookie is presented while valid --
+    also more than once -- and again, byte for byte, after it expired; session and never cookies outlive the advance."""
+    import time as _time
+    import secure_cookie.cookie as _sc
+    real, off = _time.time, [0.0]
+
+    def fake():
+        return real() + off[0]
+    problems = []
+    saved = (_time.time, _sc.time)
+    _time.time = fake
+    _sc.time = fake
+    try:
+        for exp, outlives in ((100, False), ('never', True), (0, True)):
+            off[0] = 0.0
+            app = Application([('/set', setter, render_basic), ('/read', reader, render_basic)],
+                              middlewares=[SignedCookieMiddleware(secret_key=b'secret-key-2', expiry=exp)])
+
+            def present(raw):
+                env = EnvironBuilder(path='/read').get_environ()
+                if raw is not None:
+                    env['HTTP_COOKIE'] = 'clastic_cookie=' + raw
+                got = {}
+
+                def sr(status, headers, exc_info=None):
+                    got['status'], got['headers'] = status, headers
+                body = b''.join(app(env, sr))
+                if not got['status'].startswith('200'):
+                    return '<status %s>' % got['status']
+                return json.loads(body)['data']
+            env = EnvironBuilder(path='/set', query_string='v=fresh').get_environ()
+            hs = {}
+            b''.join(app(env, lambda st, h, e=None: hs.setdefault('h', h)))
+            raw = [v.split(';')[0][len('clastic_cookie='):] for h, v in hs['h'] if h == 'Set-Cookie' and v.startswith('clastic_cookie=')]
+            if not raw:
+                problems.append('expiry=%r: no cookie set' % (exp,))
+                continue
+            raw = raw[0]
+            for dt in (10, 50):
+                off[0] = dt
+                d = present(raw)
+                if not isinstance(d, dict) or d.get('k') != 'fresh':
+                    problems.append('expiry=%r: own cookie presented %ss after it was set shows %r' % (exp, dt, d))
+            off[0] = 500
+            d = present(raw)
+            if outlives:
+                if not isinstance(d, dict) or d.get('k') != 'fresh':
+                    problems.append('expiry=%r: cookie lost after a clock advance: %r' % (exp, d))
+            elif d != {}:
+                problems.append('expiry=%r: the same cookie value presented after its expiry shows %r' % (exp, d))
+    finally:
+        _time.time, _sc.time = saved
+    return problems
 
 
 if __name__ == '__main__':
